@@ -13,7 +13,7 @@ From Coq Require Import ZArith List Bool.
 From Common Require Import Res Str.
 From Routing Require Import Model Scheme Obs Spec Obs Proofs_Tables Proofs_Group Proofs_Merge Proofs_Library Proofs_Ops
      Proofs_Routing Proofs_Witness Proofs_Frame Proofs_Sets Proofs_Scheme Proofs_Trace Proofs_Single Proofs_Examples Proofs_Modulo
-     Validation Front ObsFront Proofs_Validation Proofs_Front.
+     Validation Front ObsFront Proofs_Validation Proofs_Front Proofs_Answers.
 Import ListNotations.
 Open Scope Z_scope.
 
@@ -670,3 +670,31 @@ Print Assumptions C09_raw_lookup_keys_exact.
 Theorem C09_raw_trace_predicate_holds : forall P mx r, rtrace_ok_b P r (run_raw P mx r) = true.
 Proof. exact rtrace_ok_model. Qed.
 Print Assumptions C09_raw_trace_predicate_holds.
+
+(* ---- "validation.check_* on every backend return value": the routing model's acceptance tests
+        are the validation layer evaluated on the answer rendered as a Python value *)
+Theorem C09_sequence_answers_are_check_instances : forall key_text c r,
+  (exists l, as_instances c r = Some l) <-> check_instances (resp_val key_text r) (cls_ty c) = Ok tt.
+Proof. exact as_instances_is_check_instances. Qed.
+Print Assumptions C09_sequence_answers_are_check_instances.
+
+Theorem C09_object_answers_are_check_instance : forall key_text c r,
+  match c with CStr | CInt => False | _ => True end ->
+  (exists id, r = RVal c id) <-> check_instance (resp_val key_text r) (TModel c) = Ok tt.
+Proof. exact single_object_is_check_instance. Qed.
+Print Assumptions C09_object_answers_are_check_instance.
+
+Theorem C09_dict_answers_are_validation : forall key_text c asked r,
+  acceptable c asked r = true <->
+  check_instance (resp_val key_text r) TMapping = Ok tt /\
+  exists items, r = RMap items /\
+    Forall (fun it => In (fst it) asked /\
+                      check_instances (mval_val key_text (snd it)) (cls_ty c) = Ok tt) items.
+Proof. exact acceptable_is_validation. Qed.
+Print Assumptions C09_dict_answers_are_validation.
+
+Theorem C09_mixer_answers_are_validation : forall key_text r,
+  (write_answer_ok r = true <-> check_instance (resp_val key_text r) TBool = Ok tt) /\
+  (mute_answer_ok r = true <-> r = RNone \/ check_instance (resp_val key_text r) TBool = Ok tt).
+Proof. exact mixer_answers_are_validation. Qed.
+Print Assumptions C09_mixer_answers_are_validation.
